@@ -133,8 +133,11 @@ protected:
   std::vector<const Self *> parts_ptr_;
   std::vector<Self> link_;
 public:
+  // public data members ("property references" in a query: j.m_pt)
+  double m_pt = 0; int m_ntrk = 0; float m_q = 0; bool m_good = false;
   ObjT() {}
   explicit ObjT(const ObjData &d) : d_(&d) {
+    m_pt = d.pt; m_ntrk = d.nTrk; m_q = d.q; m_good = d.good;
     for (auto &p : d.parts) parts_.emplace_back(p);
     for (auto &p : d.link) link_.emplace_back(p);
   }
